@@ -6,7 +6,6 @@ import (
 	"path/filepath"
 	"regexp"
 	"runtime"
-	"sort"
 	"strconv"
 	"strings"
 
@@ -202,6 +201,7 @@ func runC11(c *ctx) {
 		}
 	}
 	c.stat("align_exhaustive_grid", 1)
+	runC11multi(c, r.Fork())
 	// histories: reload, spurious re-notifications, endpoint churn that fits
 	nh := 1500
 	if c.thorough() {
@@ -290,7 +290,10 @@ type c11step struct {
 	recr  []*[]c02ep // nil = bystander
 }
 
-type c11res struct{ args, out string }
+type c11res struct {
+	args, out string
+	stats     []string
+}
 
 func c11stepText(st c11step) string {
 	p := make([]string, len(st.recr))
@@ -357,6 +360,22 @@ func c11shardOf(shards int, id int) int {
 	return shards
 }
 
+// what a server line says: name~ip~port~E|D~weight
+func c11fmt5(eps []c02ep) string {
+	if len(eps) == 0 {
+		return "-"
+	}
+	s := make([]string, len(eps))
+	for i, e := range eps {
+		en := "D"
+		if e.enabled {
+			en = "E"
+		}
+		s[i] = strings.Join([]string{q(e.name), q(e.ip), strconv.Itoa(e.port), en, strconv.Itoa(e.weight)}, "~")
+	}
+	return strings.Join(s, ",")
+}
+
 var c11reSetServer = regexp.MustCompile(`^set server (\S+)/`)
 
 // server lines of the backends as HAProxy would load them: every *.cfg of the directory
@@ -396,7 +415,7 @@ func c11disk(cfgDir string, n int) []string {
 			}
 			eps = append(eps, e)
 		}
-		res[i] = c02fmtEPs(eps)
+		res[i] = c11fmt5(eps)
 	}
 	if err == nil && len(cfg.Dup) > 0 {
 		for i := range res {
@@ -422,6 +441,7 @@ func c11multi(shards int, cfgs []c02flags, steps []c11step) c11res {
 		stt[i] = c11stepText(st)
 	}
 	args := fmt.Sprintf("multi %d %s %s %s", shards, strings.Join(so, "."), strings.Join(ct, ";"), strings.Join(stt, "|"))
+	var stats []string
 	out := func() (res string) {
 		dir, err := os.MkdirTemp("", "c11multi")
 		if err != nil {
@@ -520,11 +540,27 @@ func c11multi(shards int, cfgs []c02flags, steps []c11step) c11res {
 			if uerr != nil || sim.LoadErr != "" {
 				rl = "E"
 			}
+			if k > 0 {
+				bystander := false
+				for i, r := range st.recr {
+					bystander = bystander || (r == nil && cfgs[i].dyn)
+				}
+				switch {
+				case rl == "1" && bystander:
+					stats = append(stats, "multi_step_reload_with_dynamic_bystander")
+				case rl == "1":
+					stats = append(stats, "multi_step_reload_all_recreated")
+				case len(cmds) > 0:
+					stats = append(stats, "multi_step_dynamic_update")
+				default:
+					stats = append(stats, "multi_step_no_reload_no_command")
+				}
+			}
 			outs = append(outs, rl+"/"+strings.Join(cs, "&")+"/"+strings.Join(mem, "&")+"/"+strings.Join(c11disk(cfgDir, n), "&"))
 		}
 		return strings.Join(outs, ";")
 	}()
-	return c11res{args, out}
+	return c11res{args, out, stats}
 }
 
 // c11jobs: cases are computed by a pool of workers and emitted in generation order
@@ -564,8 +600,246 @@ func (j *c11jobs) flush(stat string) {
 	for _, r := range res {
 		j.c.emit("C11", r.args, r.out)
 		j.c.stat(stat, 1)
+		for _, s := range r.stats {
+			j.c.stat(s, 1)
+		}
 	}
 	j.jobs = nil
 }
 
-var _ = sort.Strings
+// ---- generator of multi histories: per backend the DESIRED real endpoints; a step symbol changes them
+
+type c11gen struct {
+	cfgs []c02flags
+	cur  [][]int // per backend: pool indices of the desired endpoints, in converter order
+	wt   []map[int]int
+	next []int
+}
+
+func newC11gen(cfgs []c02flags, initial []int) *c11gen {
+	g := &c11gen{cfgs: cfgs}
+	for i := range cfgs {
+		var l []int
+		for k := 0; k < initial[i]; k++ {
+			l = append(l, k)
+		}
+		g.cur = append(g.cur, l)
+		g.wt = append(g.wt, map[int]int{})
+		g.next = append(g.next, initial[i])
+	}
+	return g
+}
+
+func (g *c11gen) eps(i int) *[]c02ep {
+	res := []c02ep{}
+	for _, k := range g.cur[i] {
+		w := g.cfgs[i].iw
+		if v, ok := g.wt[i][k]; ok {
+			w = v
+		}
+		res = append(res, c02ep{"", fmt.Sprintf("10.0.%d.%d", i, k+1), 8080, true, w, "", "", "", 0})
+	}
+	return &res
+}
+
+// pick: which pool index a new endpoint gets (nil: the next unused one)
+func (g *c11gen) apply(i int, sym byte, pick func(used []int) int) *[]c02ep {
+	add := func() {
+		k := g.next[i]
+		if pick != nil {
+			k = pick(g.cur[i])
+		}
+		if k >= g.next[i] {
+			g.next[i] = k + 1
+		}
+		g.cur[i] = append(g.cur[i], k)
+	}
+	switch sym {
+	case '.':
+		return nil
+	case '=':
+	case '+':
+		add()
+	case '-':
+		if len(g.cur[i]) > 0 {
+			g.cur[i] = append([]int{}, g.cur[i][1:]...)
+		}
+	case 'r':
+		if len(g.cur[i]) > 0 {
+			g.cur[i] = append([]int{}, g.cur[i][1:]...)
+		}
+		add()
+	case 'w':
+		if len(g.cur[i]) > 0 {
+			k := g.cur[i][0]
+			if g.wt[i][k] == 2 {
+				g.wt[i][k] = 1
+			} else {
+				g.wt[i][k] = 2
+			}
+		}
+	case 's':
+		l := append([]int{}, g.cur[i]...)
+		for a, b := 0, len(l)-1; a < b; a, b = a+1, b-1 {
+			l[a], l[b] = l[b], l[a]
+		}
+		g.cur[i] = l
+	case 'O': // more new endpoints than a reload leaves free
+		for k := 0; k < g.cfgs[i].minfree+g.cfgs[i].block+3; k++ {
+			g.next[i] = c11max(g.next[i], 0)
+			kk := g.next[i]
+			g.next[i]++
+			g.cur[i] = append(g.cur[i], kk)
+		}
+	case 'Z': // scale to zero
+		g.cur[i] = nil
+	}
+	return g.eps(i)
+}
+
+func c11max(a, b int) int {
+	if a > b {
+		return a
+	}
+	return b
+}
+
+// one history from per-step symbols: syms[k] = one symbol per backend, others[k] = the batch also changes a global
+func c11symHistory(j *c11jobs, shards int, cfgs []c02flags, initial []int, syms []string, others []bool) {
+	g := newC11gen(cfgs, initial)
+	st0 := c11step{}
+	for i := range cfgs {
+		st0.recr = append(st0.recr, g.eps(i))
+	}
+	steps := []c11step{st0}
+	for k, sy := range syms {
+		st := c11step{other: others[k]}
+		for i := range cfgs {
+			st.recr = append(st.recr, g.apply(i, sy[i], nil))
+		}
+		steps = append(steps, st)
+	}
+	j.add(func() c11res { return c11multi(shards, cfgs, steps) })
+}
+
+func c11dyn(minfree, block int) c02flags {
+	return c02flags{dyn: true, same: true, minfree: minfree, block: block, iw: 1}
+}
+
+func runC11multi(c *ctx, r *gen.Rng) {
+	j := &c11jobs{c: c}
+	// corpus: the minimised history of seeded defect C11e (alignSlots walking ItemsAdd()): a is scaled up
+	// dynamically, then a reload caused by something else must give a its free slots back, so that the
+	// next scale-up of a stays dynamic - without shards, sharded, and with b's overflow as the reload cause
+	for _, sh := range []int{0, 3} {
+		cf := []c02flags{c11dyn(2, 1), c11dyn(2, 1)}
+		// minimal: first update, a + 1 endpoint (dynamic), reload by a global change / by b overflowing:
+		// the files must show a with 2 empty slots again
+		c11symHistory(j, sh, cf, []int{1, 1}, []string{"+.", ".."}, []bool{false, true})
+		c11symHistory(j, sh, cf, []int{1, 1}, []string{"+.", ".O"}, []bool{false, false})
+		// ... and the consequence: the next scale-up of a stays dynamic
+		c11symHistory(j, sh, cf, []int{1, 1}, []string{"+.", "..", "+."}, []bool{false, true, false})
+		c11symHistory(j, sh, cf, []int{1, 1}, []string{"+.", ".O", "+."}, []bool{false, false, false})
+		c11symHistory(j, sh, []c02flags{c11dyn(1, 4), {dyn: false, same: true, iw: 1}}, []int{2, 1}, []string{"r.", ".+", "+."}, []bool{false, false, false})
+	}
+	j.flush("multi_corpus")
+	// exhaustive small scope: 2 backends, every sequence of steps over the alphabet, with and without shards
+	type scope struct {
+		depth int
+		alpha string
+		cfgs  [][]c02flags
+	}
+	static := c02flags{dyn: false, same: true, iw: 1}
+	scopes := []scope{{2, ".=+-O", [][]c02flags{{c11dyn(2, 1), c11dyn(1, 2)}}}}
+	if c.thorough() {
+		scopes = []scope{
+			{2, ".=+-rsOZ", [][]c02flags{{c11dyn(2, 1), c11dyn(1, 2)}}},
+			{2, ".=+-O", [][]c02flags{{c11dyn(1, 3), static}}},
+			{3, ".+O", [][]c02flags{{c11dyn(2, 1), c11dyn(0, 2)}}},
+		}
+	}
+	for _, sc := range scopes {
+		var stepSyms []string
+		for _, a := range sc.alpha {
+			for _, b := range sc.alpha {
+				stepSyms = append(stepSyms, string(a)+string(b))
+			}
+		}
+		nsym := len(stepSyms) * 2
+		total := 1
+		for d := 0; d < sc.depth; d++ {
+			total *= nsym
+		}
+		for _, cf := range sc.cfgs {
+			for _, sh := range []int{0, 3} {
+				for x := 0; x < total; x++ {
+					syms := make([]string, sc.depth)
+					others := make([]bool, sc.depth)
+					y := x
+					for d := 0; d < sc.depth; d++ {
+						k := y % nsym
+						y /= nsym
+						syms[d] = stepSyms[k/2]
+						others[d] = k%2 == 1
+					}
+					c11symHistory(j, sh, cf, []int{1, 1}, syms, others)
+				}
+				j.flush(fmt.Sprintf("multi_exhaustive_depth%d", sc.depth))
+			}
+		}
+	}
+	// random: 2-3 backends, 2-6 steps, endpoints re-used from a small pool, random settings
+	nr := 1500
+	if c.thorough() {
+		nr = 15000
+	}
+	for x := 0; x < nr; x++ {
+		n := r.Range(2, 3)
+		cfgs := make([]c02flags, n)
+		initial := make([]int, n)
+		for i := range cfgs {
+			cfgs[i] = c02flags{dyn: !r.Chance(1, 8), same: true, minfree: r.Range(0, 4), block: r.Range(0, 4), iw: gen.Pick(r, []int{1, 1, 1, 100})}
+			initial[i] = r.Range(0, 3)
+		}
+		shards := gen.Pick(r, []int{0, 0, 1, 3, 7})
+		g := newC11gen(cfgs, initial)
+		st0 := c11step{}
+		for i := range cfgs {
+			st0.recr = append(st0.recr, g.eps(i))
+		}
+		steps := []c11step{st0}
+		ns := r.Range(2, 6)
+		for k := 0; k < ns; k++ {
+			st := c11step{other: r.Chance(1, 6)}
+			for i := range cfgs {
+				sym := byte('.')
+				if r.Chance(1, 2) {
+					sym = gen.Pick(r, []byte("==++++---rrwsOZ"))
+				}
+				st.recr = append(st.recr, g.apply(i, sym, func(used []int) int {
+					// an address of the pool that is not in use (re-used addresses come back)
+					var free []int
+					for k := 0; k < 8; k++ {
+						in := false
+						for _, u := range used {
+							in = in || u == k
+						}
+						if !in {
+							free = append(free, k)
+						}
+					}
+					if len(free) == 0 {
+						return 8 + len(used)
+					}
+					return gen.Pick(r, free)
+				}))
+			}
+			steps = append(steps, st)
+		}
+		j.add(func() c11res { return c11multi(shards, cfgs, steps) })
+		if len(j.jobs) >= 2000 {
+			j.flush("multi_random")
+		}
+	}
+	j.flush("multi_random")
+}
